@@ -20,11 +20,14 @@ import time
 from fractions import Fraction
 
 VERIF = pathlib.Path(__file__).resolve().parents[1]
-REPO = pathlib.Path('/repo')
+# FEMTO_REPO / VERIF_OUT are used only by tools/run_seeded.py (a seeded change applied in a scratch worktree, output kept
+# apart from the registered evidence); the registered checks run with the defaults: /repo and /verif
+REPO = pathlib.Path(os.environ.get('FEMTO_REPO') or '/repo')
 COQ = VERIF / 'coq'
-WORK = VERIF / '.work'
-REPLAYS = VERIF / 'replays'
-EVIDENCE = VERIF / 'evidence'
+OUT = pathlib.Path(os.environ.get('VERIF_OUT') or VERIF)
+WORK = OUT / '.work'
+REPLAYS = OUT / 'replays'
+EVIDENCE = OUT / 'evidence'
 KNOWN = VERIF / 'known_findings.json'
 
 AXIOM_WHITELIST = {
@@ -260,7 +263,7 @@ class Report:
         self.assumptions: list[str] = []
         self.known = load_known(prop)
         self._nrep = 0
-        REPLAYS.mkdir(exist_ok=True)
+        REPLAYS.mkdir(parents=True, exist_ok=True)
 
     def violation(self, key: str, what: str, replay: dict, no_input: bool = False):
         """Report a failing case. `key` is the failure signature matched against known findings."""
@@ -307,7 +310,7 @@ class Report:
             'coverage': cov, 'assumptions': list(self.assumptions) + list(extra_assumptions),
             'wall_s': round(time.time() - self.t0, 2), 'violations': self.violations,
         }
-        EVIDENCE.mkdir(exist_ok=True)
+        EVIDENCE.mkdir(parents=True, exist_ok=True)
         (EVIDENCE / f'{self.prop}.json').write_text(json.dumps(ev, indent=1, default=str))
         return 1 if self.violations else 0
 
